@@ -1,11 +1,13 @@
 (* Sequences of cursor operations on a C++ bitspan (store-and-advance, void fields, alignment padding): whatever the sequence,
    if no member reports an error the span stays well formed, the cursor only moves forward, and every bit before the old cursor
-   and at or after the new cursor is untouched (induction over the op list).  Domain: the cursor stays below 2^64 (size_t). *)
+   and at or after the new cursor is untouched (induction over the op list).  No premise on the cursor: that it stays below 2^64
+   FOLLOWS from success (the saturating capacity tests of setUxx / setZeros / padAndMoveToAlignment); the only side condition is
+   the argument type (a size_t length is below 2^64, an alignment is a uint8_t). *)
 From Verif Require Import Bits CPrims CPrimsThm CppPrims CppPrimsThm CppPrimsMoreThm PrimsExt.
 Open Scope N_scope.
 
 Definition op_span (o : cpp_op) : N := match o with CStoreU _ len => len | CZeros len => len | CPad n => n end.
-Definition cpp_op_ok (o : cpp_op) : Prop := match o with CPad n => 1 <= n <= 255 | _ => True end.
+Definition cpp_op_ok (o : cpp_op) : Prop := match o with CPad n => 1 <= n <= 255 | CZeros len => len < two64 | CStoreU _ _ => True end.
 Fixpoint total_span (ops : list cpp_op) : N := match ops with [] => 0 | o :: t => op_span o + total_span t end.
 
 Definition cpp_frame (s s' : span) (budget : N) : Prop :=
@@ -14,19 +16,21 @@ Definition cpp_frame (s s' : span) (budget : N) : Prop :=
   forall p, p < sp_off s \/ sp_off s' <= p -> bit (sp_data s') p = bit (sp_data s) p.
 
 Lemma cpp_step_frame o s s' :
-  span_ok s -> bytes_ok (sp_data s) -> cpp_op_ok o -> sp_off s + op_span o < two64 ->
+  span_ok s -> bytes_ok (sp_data s) -> cpp_op_ok o ->
   cpp_step o s = Some s' -> cpp_frame s s' (op_span o).
 Proof.
-  intros Hs Hok Ho Hb H. pose proof Hs as (S1 & S2 & S3). destruct o as [v len|len|n]; cbn [cpp_step op_span cpp_op_ok] in *.
-  - rewrite cpp_set_uxx_is_c in H by assumption.
-    destruct (set_uxx_exact false (sp_data s) (sp_size s) (sp_off s) v len S1 S2 Hb) as [Ha Hc].
+  intros Hs Hok Ho H. pose proof Hs as (S1 & S2 & S3). destruct o as [v len|len|n]; cbn [cpp_step op_span cpp_op_ok] in *.
+  - rewrite cpp_set_uxx_is_c_all in H by assumption.
+    destruct (set_uxx_exact_all false (sp_data s) (sp_size s) (sp_off s) v len S1 S2) as [Ha Hc].
     destruct (N.lt_ge_cases (sp_size s * 8) (sp_off s + len)) as [Hlt|Hge]; [rewrite (Ha Hlt) in H; discriminate|].
+    assert (Hb : sp_off s + len < two64) by lia.
     destruct (Hc Hge) as (r & E & L & K & B). rewrite E in H. injection H as <-. rewrite w64_small by exact Hb.
     unfold cpp_frame, span_ok. cbn [sp_data sp_size sp_off]. unfold blen in *. rewrite L.
     repeat split; auto; try lia. intros p Hp. rewrite B.
     destruct (N.leb_spec (sp_off s) p); destruct (N.ltb_spec p (sp_off s + N.min len 64)); cbn [andb]; try reflexivity. lia.
-  - destruct (setZeros_exact s len Hs Hok ltac:(lia)) as [Ha Hc]. pose proof (sp_bits_spec s Hs) as SB.
+  - destruct (setZeros_exact s len Hs Hok Ho) as [Ha Hc]. pose proof (sp_bits_spec s Hs) as SB.
     destruct (N.lt_ge_cases (sp_bits s) len) as [Hlt|Hge]; [rewrite (Ha Hlt) in H; discriminate|].
+    assert (Hb : sp_off s + len < two64) by lia.
     destruct (Hc Hge) as (r & E & L & K & B). rewrite E in H. injection H as <-. rewrite w64_small by exact Hb.
     unfold cpp_frame, span_ok. cbn [sp_data sp_size sp_off]. unfold blen in *. rewrite L.
     repeat split; auto; try lia. intros p Hp. rewrite B.
@@ -34,6 +38,7 @@ Proof.
   - destruct (pad_and_move_spec s n Hs Hok Ho) as [Ha Hc]. set (pad := (n - sp_off s mod n) mod n) in *.
     assert (Hp : pad < n) by (subst pad; apply N.mod_lt; lia).
     destruct (N.lt_ge_cases (sp_bits s) pad) as [Hlt|Hge]; [rewrite (Ha Hlt) in H; discriminate|].
+    pose proof (sp_bits_spec s Hs) as SB. assert (Hb : sp_off s + pad < two64) by lia.
     destruct (Hc Hge) as (r & E & M & L & B). rewrite E in H. injection H as <-.
     assert (Hrok : bytes_ok r).
     { unfold padAndMoveToAlignment in E. destruct (n =? 0); [discriminate|]. destruct (negb _).
@@ -52,14 +57,14 @@ Proof.
 Qed.
 
 Theorem cpp_run_frame ops : forall s s',
-  span_ok s -> bytes_ok (sp_data s) -> Forall cpp_op_ok ops -> sp_off s + total_span ops < two64 ->
+  span_ok s -> bytes_ok (sp_data s) -> Forall cpp_op_ok ops ->
   cpp_run ops s = Some s' -> cpp_frame s s' (total_span ops).
 Proof.
-  induction ops as [|o t IH]; intros s s' Hs Hok HF Hb H; cbn [cpp_run total_span] in *.
+  induction ops as [|o t IH]; intros s s' Hs Hok HF H; cbn [cpp_run total_span] in *.
   - injection H as <-. unfold cpp_frame. split; [reflexivity|]. split; [reflexivity|]. split; [exact Hok|]. split; [exact Hs|]. split; [lia|reflexivity].
   - inversion HF as [|? ? Ho Ht]; subst. destruct (cpp_step o s) as [s1|] eqn:E; [|discriminate].
-    destruct (cpp_step_frame o s s1 Hs Hok Ho ltac:(lia) E) as (A1 & B1 & C1 & D1 & E1 & F1).
-    destruct (IH s1 s' D1 C1 Ht ltac:(lia) H) as (A2 & B2 & C2 & D2 & E2 & F2).
+    destruct (cpp_step_frame o s s1 Hs Hok Ho E) as (A1 & B1 & C1 & D1 & E1 & F1).
+    destruct (IH s1 s' D1 C1 Ht H) as (A2 & B2 & C2 & D2 & E2 & F2).
     unfold cpp_frame. split; [congruence|]. split; [congruence|]. split; [exact C2|]. split; [exact D2|]. split; [lia|].
     intros p Hp. rewrite F2 by lia. apply F1. lia.
 Qed.
